@@ -69,6 +69,7 @@ class PairRunner:
         self.interp = MP.Interp(self.world.mdib, self.inv, provider=self.world.provider)
         self.fired = []
         self.check_notifications = check_notifications
+        self.entity_audit = prop == 'C11'  # the entity getters are look-ups as well (audited after structural ops)
         for name in OBSERVABLES:
             properties.strongbind(self.cmdib, **{name: (lambda v, name=name: self.fired.append((name, v)))})
         self.kinds_applied = set()
@@ -106,6 +107,11 @@ class PairRunner:
             for problem in C.audit_mdib(mdib, side):
                 out.append((f'{self.prop}/lookup/{side}/{problem.split("[")[0].split(":")[0]}',
                             f'after {R.short(op, 160)}: {problem}'))
+            if self.entity_audit and op[0] in ('init', 'descr_create', 'descr_delete', 'descr_recreate', 'descr_update',
+                                               'multi', 'ctx_new', 'ctx_delete', 'set_location'):
+                for problem in C.audit_entities(mdib, side):
+                    out.append((f'{self.prop}/lookup/{side}/{problem.split("[")[0].split(":")[0]}',
+                                f'after {R.short(op, 160)}: {problem}'))
         for name, mgr in self.world.provider._subscriptions_managers.items():  # noqa: SLF001
             for problem in C.audit_table(mgr._subscriptions, f'subscriptions[{name}]'):  # noqa: SLF001
                 out.append((f'{self.prop}/lookup/subscriptions', f'after {R.short(op, 160)}: {problem}'))
